@@ -816,7 +816,8 @@ def identify(ctx, x, constants=[], tol=None, maxcoeff=1000, full=False,
             # Linear combination of base constants
             r = ctx.pslq([t] + [a[0] for a in constants], tol, M)
             s = None
-            if r is not None and max(abs(uw) for uw in r) <= M and r[0]:
+            if r is not None and max(abs(uw) for uw in r) <= M and r[0] \
+                and any(r[1:]):
                 s = pslqstring(r, constants)
             # Quadratic algebraic numbers
             else:
@@ -829,7 +830,8 @@ def identify(ctx, x, constants=[], tol=None, maxcoeff=1000, full=False,
                 if cn == '1' and ('/$c' in ftn):
                     s = ftn.replace('$y', s).replace('/$c', '')
                 else:
-                    s = ftn.replace('$y', s).replace('$c', cn)
+                    s = ftn.replace('$y', s).replace('$c**',
+                        _operand(cn, True) + '**').replace('$c', cn)
                 addsolution(s)
                 if not full: return solutions[0]
 
